@@ -117,7 +117,9 @@ impl FeatureState for CombinedFeatureState {
     }
 
     fn accept_route_state(&self, route_ctx: &mut RouteContext) {
-        accept_route_state_with_states(&self.states, route_ctx)
+        // NOTE: `accept_route_state_with_states` is for the top level only: it wipes the whole route state
+        // (including values set by features outside this combination) and resets the stale flag
+        self.states.iter().for_each(|state| state.accept_route_state(route_ctx));
     }
 
     fn accept_solution_state(&self, ctx: &mut SolutionContext) {
